@@ -40,6 +40,9 @@
 (*          bin width below rmin lands in bin 0), "lossy_cover", "maxid_exclusive"     *)
 (*          are self-tests.  Cases are exported and replayed into the real code.      *)
 (*                                                                                  *)
+(* "reps"   the representation of every array / scalar argument, independently per   *)
+(*          argument, as a covering design (ChooseRep); exported and replayed.        *)
+(*                                                                                  *)
 (* "hist"   the HTM object with the caller's buffers as a state machine: histories   *)
 (*          (Overwrite ; Bincount)* on ONE object re-using the SAME coordinate        *)
 (*          buffers with their contents replaced in place.  The object has no         *)
@@ -66,9 +69,10 @@ VARIABLES phase,
           dg, lm, nm,                  \* ids
           cc, work, fullL, partL,      \* cover
           pc, mech,                    \* pairs
-          hcalls, hcache               \* hist
-vars == <<phase, dg, lm, nm, cc, work, fullL, partL, pc, mech, hcalls, hcache>>
-idsVars   == <<dg, lm, nm>>
+          hcalls, hcache,              \* hist
+          rp                           \* reps
+vars == <<phase, dg, lm, nm, cc, work, fullL, partL, pc, mech, hcalls, hcache, rp>>
+idsVars   == <<dg, lm, nm, rp>>
 coverVars == <<cc, work, fullL, partL>>
 pairVars  == <<pc, mech, hcalls, hcache>>
 NoCache   == [valid |-> FALSE, lf |-> <<>>]
@@ -131,7 +135,7 @@ NoMech   == [i |-> 0, counts |-> <<>>]
 Init == /\ phase = Part
         /\ dg = <<>> /\ lm = <<0, 0, 0>> /\ nm = <<>>
         /\ cc = NoCircle /\ work = <<>> /\ fullL = {} /\ partL = {}
-        /\ pc = NoPairs /\ mech = NoMech /\ hcalls = <<>> /\ hcache = NoCache
+        /\ pc = NoPairs /\ mech = NoMech /\ hcalls = <<>> /\ hcache = NoCache /\ rp = <<>>
 
 \* =========================================================================================
 \* Part "ids"
@@ -141,12 +145,12 @@ Miss(x) == Deviation = "miss_level" /\ x = 3 /\ Len(dg) - 2 >= BuildLevel
 
 IdsRoot == /\ phase = "ids" /\ dg = <<>>
            /\ \E h \in {2, 3} : \E q \in 0..3 : dg' = <<h, q>> /\ lm' = <<0, 0, 4 * h + q>> /\ nm' = <<h, q>>
-           /\ UNCHANGED <<phase, coverVars, pairVars>>
+           /\ UNCHANGED <<phase, rp, coverVars, pairVars>>
 IdsDescend == /\ phase = "ids" /\ Len(dg) >= 2 /\ Len(dg) - 2 < MaxDepth
               /\ \E x \in NextDigits : /\ dg' = Append(dg, x)
                                        /\ lm' = HiMul4Add(lm, x)
                                        /\ nm' = IF Miss(x) THEN nm ELSE Append(nm, x)
-              /\ UNCHANGED <<phase, coverVars, pairVars>>
+              /\ UNCHANGED <<phase, rp, coverVars, pairVars>>
 
 \* idByName: the leading character sets the two top bits, every further character two more bits
 RECURSIVE NameValue(_)
@@ -342,12 +346,48 @@ HistMechRefines == (phase = "hready" /\ hcalls # <<>>) =>
     LET n == Len(hcalls) IN PObsFailing(HCallRec(n), [var |-> "mech", err |-> "none", counts |-> hcalls[n].counts]) = {}
 
 \* =========================================================================================
+\* Part "reps": how the arguments are handed over.  A covering design over (entry point, argument,
+\* representation, partner): one argument takes the representation, every other argument of the call takes the
+\* partner layout ("contig" or "strided"), so every argument meets every representation it admits against a
+\* contiguous and against a non-contiguous neighbour - independently per argument, never "all arguments alike".
+\* The rows are exported and replayed; the property-level judgement ignores the row except for HiRepRejectable.
+Entries == {"lookup_id", "bincount", "intersect"}
+ArgsOf(e) == IF e = "lookup_id" THEN <<"ra", "dec">>
+             ELSE IF e = "bincount" THEN <<"ra1", "dec1", "ra2", "dec2", "scale", "htmid2", "htmrev2">>
+             ELSE <<"c_ra", "c_dec", "c_radius">>
+CoordReps == {"contig", "strided", "recfield12", "recfield20", "reversed", "be", "f4", "i4", "i8", "list", "tuple",
+              "zerod", "npscalar", "pyscalar", "twod_row", "twod_col"}
+IndexReps == {"contig", "strided", "recfield12", "recfield20", "reversed", "be", "i4", "u8", "list", "twod_row"}
+ScalarReps == {"pyfloat", "npfloat64", "npfloat32", "npint", "longdouble", "zerod", "onearray"}
+RepsFor(a) == IF a \in {"htmid2", "htmrev2"} THEN IndexReps
+              ELSE IF a \in {"c_ra", "c_dec"} THEN ScalarReps
+              ELSE IF a = "c_radius" THEN ScalarReps \ {"npfloat32", "npint"}          \* the radius is not a whole number
+              ELSE CoordReps
+Partners(e) == IF e = "intersect" THEN {"pyfloat"} ELSE {"contig", "strided"}
+DesignRow(e, a, x, pt) == [k \in DOMAIN ArgsOf(e) |-> <<ArgsOf(e)[k], IF ArgsOf(e)[k] = a THEN x ELSE pt>>]
+ChooseRep == /\ phase = "reps"
+             /\ \E e \in Entries : \E a \in VRange(ArgsOf(e)) : \E x \in RepsFor(a) : \E pt \in Partners(e) :
+                   rp' = [entry |-> e, odd |-> <<a, x, pt>>, row |-> DesignRow(e, a, x, pt)]
+             /\ phase' = "repcase" /\ UNCHANGED <<dg, lm, nm, coverVars, pairVars>>
+\* the design covers what it promises, and a call in the plain representation can never be refused
+RepDesignOK == phase = "reps" =>
+    \A e \in Entries : \A a \in VRange(ArgsOf(e)) : \A x \in RepsFor(a) : \A pt \in Partners(e) :
+        LET row == DesignRow(e, a, x, pt) IN
+        /\ \E k \in DOMAIN row : row[k] = <<a, x>>
+        /\ \A k \in DOMAIN row : row[k][1] # a => row[k][2] = pt
+        /\ (x \in {"contig", "strided", "pyfloat"}) => ~HiRepRejectable(row)
+RepRowSane == phase = "repcase" =>
+    /\ Len(rp.row) = Len(ArgsOf(rp.entry))
+    /\ HiRepRejectable(rp.row) <=> HiRepRejectablePair(rp.odd[1], rp.odd[2])
+
+\* =========================================================================================
 Next ==
     \/ IdsRoot \/ IdsDescend
     \/ CoverChoose \/ CoverStep \/ CoverDone \/ CoverCase
     \/ ChooseP2 \/ ChooseP1 \/ ChooseBins \/ ChooseScale(TRUE) \/ MechStep \/ MechDone
     \/ HStart \/ HOverwrite \/ HBincount(TRUE)
-NextExport == CoverCase \/ ChooseP2 \/ ChooseP1 \/ ChooseBins \/ ChooseScale(FALSE) \/ HStart \/ HOverwrite \/ HBincount(FALSE)
+    \/ ChooseRep
+NextExport == ChooseRep \/ CoverCase \/ ChooseP2 \/ ChooseP1 \/ ChooseBins \/ ChooseScale(FALSE) \/ HStart \/ HOverwrite \/ HBincount(FALSE)
 Spec == Init /\ [][Next]_vars
 
 Export ==
@@ -357,6 +397,7 @@ Export ==
     /\ (DoExport /\ phase = "hready" /\ Len(hcalls) = HistCalls) =>
           PrintT(<<"CASE", ToJson([kind |-> "history", lat |-> Lat, edges |-> pc.edges, scale |-> pc.scale,
                                    calls |-> [n \in DOMAIN hcalls |-> [p1 |-> hcalls[n].p1, p2 |-> hcalls[n].p2]]])>>)
+    /\ (DoExport /\ phase = "repcase") => PrintT(<<"CASE", ToJson([kind |-> "reps", entry |-> rp.entry, odd |-> rp.odd, row |-> rp.row])>>)
     /\ (DoExport /\ phase = "case") =>
           PrintT(<<"CASE", ToJson([kind |-> "pairs", lat |-> Lat, p1 |-> pc.p1, p2 |-> pc.p2, edges |-> pc.edges,
                                    scale |-> pc.scale])>>)
